@@ -8,6 +8,31 @@ use std::collections as sc;
 
 use crate::havoc::{any_bool, Havoc};
 
+/// owned key from a borrowed lookup form (needed only when a havoc map materialises a key on a lookup)
+pub trait OwnFrom<Q: ?Sized>: Sized {
+    fn own_from(q: &Q) -> Option<Self>;
+}
+impl<T: Clone> OwnFrom<T> for T {
+    fn own_from(q: &T) -> Option<T> {
+        Some(q.clone())
+    }
+}
+impl OwnFrom<str> for String {
+    fn own_from(q: &str) -> Option<String> {
+        Some(q.to_string())
+    }
+}
+impl<'a, T> OwnFrom<T> for &'a T {
+    fn own_from(_q: &T) -> Option<&'a T> {
+        None
+    }
+}
+impl<'a> OwnFrom<str> for std::borrow::Cow<'a, str> {
+    fn own_from(q: &str) -> Option<Self> {
+        Some(std::borrow::Cow::Owned(q.to_string()))
+    }
+}
+
 macro_rules! replay_map {
     ($Map:ident, $StdMap:ident, $StdSet:ident, $modname:ident, [$($kb:tt)*]) => {
         pub struct $Map<K, V> {
@@ -64,27 +89,28 @@ macro_rules! replay_map {
         }
         impl<K: $($kb)* + Clone, V: Havoc> $Map<K, V> {
             fn touch<Q>(&self, k: &Q)
-            where K: core::borrow::Borrow<Q>, Q: $($kb)* + ToOwned<Owned = K> + ?Sized,
+            where K: core::borrow::Borrow<Q> + OwnFrom<Q>, Q: $($kb)* + ?Sized,
             {
                 if self.havoc && !self.t().contains(k) {
-                    self.t().insert(k.to_owned());
+                    let owned = K::own_from(k).expect("vcoll: havoc lookup through this borrowed key form is not modelled");
+                    self.t().insert(owned.clone());
                     if any_bool() {
-                        self.m().insert(k.to_owned(), V::havoc());
+                        self.m().insert(owned, V::havoc());
                     }
                 }
             }
             pub fn get<Q>(&self, k: &Q) -> Option<&V>
-            where K: core::borrow::Borrow<Q>, Q: $($kb)* + ToOwned<Owned = K> + ?Sized,
+            where K: core::borrow::Borrow<Q> + OwnFrom<Q>, Q: $($kb)* + ?Sized,
             { self.touch(k); self.m().get(k) }
             pub fn get_mut<Q>(&mut self, k: &Q) -> Option<&mut V>
-            where K: core::borrow::Borrow<Q>, Q: $($kb)* + ToOwned<Owned = K> + ?Sized,
+            where K: core::borrow::Borrow<Q> + OwnFrom<Q>, Q: $($kb)* + ?Sized,
             { self.touch(k); self.m().get_mut(k) }
             pub fn contains_key<Q>(&self, k: &Q) -> bool
-            where K: core::borrow::Borrow<Q>, Q: $($kb)* + ToOwned<Owned = K> + ?Sized,
+            where K: core::borrow::Borrow<Q> + OwnFrom<Q>, Q: $($kb)* + ?Sized,
             { self.touch(k); self.m().contains_key(k) }
             pub fn insert(&mut self, k: K, v: V) -> Option<V> { self.touch(&k); self.m().insert(k, v) }
             pub fn remove<Q>(&mut self, k: &Q) -> Option<V>
-            where K: core::borrow::Borrow<Q>, Q: $($kb)* + ToOwned<Owned = K> + ?Sized,
+            where K: core::borrow::Borrow<Q> + OwnFrom<Q>, Q: $($kb)* + ?Sized,
             { self.touch(k); self.m().remove(k) }
             pub fn entry(&mut self, k: K) -> sc::$modname::Entry<'_, K, V> { self.touch(&k); self.m().entry(k) }
         }
@@ -151,21 +177,22 @@ macro_rules! replay_set {
                 assert!(!self.havoc, "vcoll: iteration over an unbounded symbolic map is not modelled");
             }
             fn touch<Q>(&self, k: &Q)
-            where K: core::borrow::Borrow<Q>, Q: $($kb)* + ToOwned<Owned = K> + ?Sized,
+            where K: core::borrow::Borrow<Q> + OwnFrom<Q>, Q: $($kb)* + ?Sized,
             {
                 if self.havoc && !self.t().contains(k) {
-                    self.t().insert(k.to_owned());
+                    let owned = K::own_from(k).expect("vcoll: havoc lookup through this borrowed key form is not modelled");
+                    self.t().insert(owned.clone());
                     if any_bool() {
-                        self.m().insert(k.to_owned());
+                        self.m().insert(owned);
                     }
                 }
             }
             pub fn insert(&mut self, k: K) -> bool { self.touch(&k); self.m().insert(k) }
             pub fn remove<Q>(&mut self, k: &Q) -> bool
-            where K: core::borrow::Borrow<Q>, Q: $($kb)* + ToOwned<Owned = K> + ?Sized,
+            where K: core::borrow::Borrow<Q> + OwnFrom<Q>, Q: $($kb)* + ?Sized,
             { self.touch(k); self.m().remove(k) }
             pub fn contains<Q>(&self, k: &Q) -> bool
-            where K: core::borrow::Borrow<Q>, Q: $($kb)* + ToOwned<Owned = K> + ?Sized,
+            where K: core::borrow::Borrow<Q> + OwnFrom<Q>, Q: $($kb)* + ?Sized,
             { self.touch(k); self.m().contains(k) }
             pub fn iter(&self) -> sc::$modname::Iter<'_, K> { self.no_havoc(); self.m().iter() }
             pub fn len(&self) -> usize { self.no_havoc(); self.m().len() }
